@@ -84,6 +84,10 @@ func checkC17(e *core.Env) {
 		if got := grpchan.InterceptClientConn(b, nil, nil); got != b {
 			e.Violate("identity/nil-nil", fmt.Sprintf("InterceptClientConn(ch, nil, nil) returned %T, not the channel itself", got), nil)
 		}
+		// the older name of the same function
+		if got := grpchan.InterceptChannel(b, nil, nil); got != b {
+			e.Violate("identity/nil-nil-deprecated-name", fmt.Sprintf("InterceptChannel(ch, nil, nil) returned %T, not the channel itself", got), nil)
+		}
 		e.Eval("nilnil", false)
 	}
 
